@@ -779,3 +779,39 @@ package bchutil
 //@   modifies nothing
 //@   assert after NewReader#1: sameobj($arg0, serializedTx) && len($arg0) == len(serializedTx) && $arg0.off == serializedTx.off
 //@   assert after NewTxFromReader#1: typeis($arg0, "bytes.*Reader") && unbox($arg0, "bytes.*Reader") == $ret_NewReader#1
+
+//@ lemmafunc bchutil.lemmaWIFRoundTrip
+//@   requires w != nil && w.PrivKey != nil && w.PrivKey.D != nil && *w.PrivKey.D >= 0 && *w.PrivKey.D < 115792089237316195423570985008687907853269984665640564039457584007913129639936
+//@   inlines bchutil.(*WIF).String, bchutil.DecodeWIF
+//@   opaque big.be, big.beo
+//@   bind after String/Bytes#1: $d = $ret
+//@   bind after String/paddedAppend#1: $p = $ret
+//@   assert after String/paddedAppend#1: len($p) == 33 && len($d) <= 32 && (forall k :: 1 <= k && k < 33 - len($d) ==> $p[k] == 0)
+//@   assert after String/paddedAppend#1: forall k :: 0 <= k && k < len($d) ==> $p[33 - len($d) + k] == $d[k]
+//@   bind after String/DoubleHashB#1: $a = $arg0
+//@   assert after String/DoubleHashB#1: forall k :: 0 <= k && k < 33 ==> $a[k] == $p[k]
+//@   bind after String/DoubleHashB#1: $h = $ret
+//@   bind after String/Encode#1: $b = $arg0
+//@   assert after DecodeWIF/Decode#1: len($ret) == len($b) && forall k :: 0 <= k && k < len($b) ==> $ret[k] == $b[k]
+//@   assert after DecodeWIF/Decode#1: len($b) == (w.CompressPubKey ? 38 : 37) && len($a) == len($b) - 4 && $b[0] == w.netID && (w.CompressPubKey ==> $b[33] == 1)
+//@   assert after DecodeWIF/Decode#1: (forall k :: 0 <= k && k < len($a) ==> $a[k] == $b[k]) && (forall k :: 0 <= k && k < 4 ==> $b[len($a) + k] == $h[k])
+//@   assert after DecodeWIF/Decode#1: forall k :: 0 <= k && k < 33 ==> $b[k] == $p[k]
+//@   assert after DecodeWIF/DoubleHashB#1: lemma dsha_ext($arg0, len($arg0), $a, len($a))
+//@   assert after DecodeWIF/DoubleHashB#1: forall k :: 0 <= k && k < 4 ==> $ret[k] == $b[len($a) + k]
+//@   assert after DecodeWIF/Equal#1: $ret
+//@   bind after DecodeWIF/PrivKeyFromBytes#1: $x = $arg1
+//@   assert after DecodeWIF/PrivKeyFromBytes#1: len($x) == 32 && (forall k :: 0 <= k && k < 32 ==> $x[k] == $p[1 + k])
+//@   assert after DecodeWIF/PrivKeyFromBytes#1: (forall k :: 0 <= k && k < 32 - len($d) ==> $x[k] == 0) && (forall k :: 0 <= k && k < len($d) ==> $x[32 - len($d) + k] == $d[k])
+//@   assert after DecodeWIF/PrivKeyFromBytes#1: lemma be_strip($x, 32 - len($d), len($d))
+//@   assert after DecodeWIF/PrivKeyFromBytes#1: lemma beo_ext($x, 32 - len($d), len($d), $d, 0, len($d))
+//@   assert after DecodeWIF/PrivKeyFromBytes#1: lemma beo_is_be($d, len($d))
+//@   assert after DecodeWIF/PrivKeyFromBytes#1: big.be($x, 32) == big.be($d, len($d))
+//@   assert after DecodeWIF/PrivKeyFromBytes#1: *$ret0.D == *w.PrivKey.D
+//@   bind after DecodeWIF/PrivKeyFromBytes#1: $k = $ret0
+//@   bind after DecodeWIF/PrivKeyFromBytes#1: $kd = $ret0.D
+//@   assert after DecodeWIF#1: $ret1 == nil && $ret0 != nil
+//@   assert after DecodeWIF#1: $ret0.netID == w.netID && $ret0.CompressPubKey == w.CompressPubKey
+//@   assert after DecodeWIF#1: $ret0.PrivKey == $k && $k != nil
+//@   assert after DecodeWIF#1: $k.D == $kd && $kd != nil
+//@   assert after DecodeWIF#1: *$kd == *w.PrivKey.D
+//@   assert after DecodeWIF#1: $ret0.PrivKey != nil && $ret0.PrivKey.D != nil && *$ret0.PrivKey.D == *w.PrivKey.D
